@@ -1,0 +1,79 @@
+//go:build verif
+
+package httpserver
+
+import (
+	"bytes"
+	"net"
+	"net/http"
+
+	"github.com/tmpim/casket/caskettls"
+)
+
+// Test-only exports for the /verif conformance harness (property C19). Add-only; nothing in
+// here changes the behaviour of the package.
+
+// VerifParseClientHello runs the raw ClientHello parser.
+func VerifParseClientHello(data []byte) caskettls.ClientHelloInfo {
+	return caskettls.ClientHelloInfo(parseRawClientHello(data))
+}
+
+// VerifLooksLike evaluates one of the interception heuristics on a parsed hello.
+func VerifLooksLike(info caskettls.ClientHelloInfo, which string) bool {
+	i := rawHelloInfo(info)
+	switch which {
+	case "firefox":
+		return i.looksLikeFirefox()
+	case "chrome":
+		return i.looksLikeChrome()
+	case "edge":
+		return i.looksLikeEdge()
+	case "safari":
+		return i.looksLikeSafari()
+	case "tor":
+		return i.looksLikeTor()
+	case "heartbeat":
+		return i.advertisesHeartbeatSupport()
+	}
+	panic("verif: unknown heuristic " + which)
+}
+
+// VerifGetVersion is getVersion.
+func VerifGetVersion(ua, softwareName string) float64 { return getVersion(ua, softwareName) }
+
+// VerifHelloProbe looks into a clientHelloConn.
+type VerifHelloProbe struct {
+	c *clientHelloConn
+	l *tlsHelloListener
+}
+
+// VerifNewHelloConn wraps conn exactly as tlsHelloListener.Accept does (without the TLS server on top).
+func VerifNewHelloConn(conn net.Conn) (net.Conn, *VerifHelloProbe) {
+	l := newTLSListener(nil, nil)
+	buf := bufpool.Get().(*bytes.Buffer)
+	buf.Reset()
+	hc := &clientHelloConn{Conn: conn, listener: l, buf: buf}
+	return hc, &VerifHelloProbe{c: hc, l: l}
+}
+
+// Buffered is the number of bytes the tee buffer currently holds.
+func (p *VerifHelloProbe) Buffered() int { return p.c.buf.Len() }
+
+// ReadHello tells whether the conn considers the ClientHello read.
+func (p *VerifHelloProbe) ReadHello() bool { return p.c.readHello }
+
+// Info returns what was recorded for the connection's remote address.
+func (p *VerifHelloProbe) Info() (caskettls.ClientHelloInfo, bool) {
+	p.l.helloInfosMu.RLock()
+	defer p.l.helloInfosMu.RUnlock()
+	i, ok := p.l.helloInfos[p.c.Conn.RemoteAddr().String()]
+	return caskettls.ClientHelloInfo(i), ok
+}
+
+// VerifTLSHandler returns the MITM-detection handler in front of next, with info recorded
+// for the connection whose remote address is remoteAddr.
+func VerifTLSHandler(next http.Handler, remoteAddr string, info caskettls.ClientHelloInfo) http.Handler {
+	l := newTLSListener(nil, nil)
+	l.helloInfos[remoteAddr] = rawHelloInfo(info)
+	return &tlsHandler{next: next, listener: l}
+}
